@@ -527,6 +527,33 @@ class Extractor:
                 mfor = re.match(r"for\s+(\w+)\s+in\s+(.+?)\.\.(.+?)\s*$", hdr, re.S)
                 mzip = re.match(r"for\s*\(\s*(\w+)\s*,\s*(\w+)\s*\)\s+in\s+(.+?)\.iter_mut\(\)\.zip\((.+?)\.iter\(\)\)\s*$", hdr, re.S)
                 menum = re.match(r"for\s*\(\s*(\w+)\s*,\s*(\w+)\s*\)\s+in\s+(.+?)\.iter\(\)\.enumerate\(\)\s*$", hdr, re.S)
+                # I4 placeholders that make loop annotations independent of the loop's surface form:
+                #   $i = iterations completed (at the loop head), $k = index of the element the body is working
+                #   on, $n = the bound
+                if mzip:
+                    ph = {"$i": "r16_i", "$k": "(r16_i - 1)", "$n": "r16_n"}
+                elif menum:
+                    ph = {"$i": "r13_i", "$k": "(r13_i - 1)", "$n": "r13_n"}
+                elif mfor and re.search(r"\bcontinue\b", body_code):
+                    ph = {"$i": "r7_i", "$k": "(r7_i - 1)", "$n": "r7_n"}
+                elif mfor:
+                    ph = {"$i": mfor.group(1), "$k": mfor.group(1), "$n": "(%s)" % mfor.group(3).strip()}
+                else:
+                    ph = {}
+                def subst(lines):
+                    out_ = []
+                    for il in lines:
+                        for a_, b_ in ph.items():
+                            il = il.replace(a_, b_)
+                        if "$i" in il or "$k" in il or "$n" in il:
+                            raise LostAnchor("loop %d of fn %s has a form without an index; annotation uses $i/$k/$n" % (n, name))
+                        out_.append(il)
+                    return out_
+                inv = subst(inv)
+                if f.get("loop_begin", {}).get(n):
+                    f["loop_begin"][n] = subst(f["loop_begin"][n])
+                if f.get("loop_end", {}).get(n):
+                    f["loop_end"][n] = subst(f["loop_end"][n])
                 if mfor and re.search(r"\bcontinue\b", body_code):
                     # R7: desugar `for x in a..b { .. continue .. }`
                     if src.line_of(ks) != k:
